@@ -502,7 +502,16 @@ where
             });
 
         // Move entries out of the map — avoids Vec clone
-        let entries = entries_per_peer.remove(&peer_id).unwrap_or_default();
+        let mut entries = entries_per_peer.remove(&peer_id).unwrap_or_default();
+
+        // Entries must directly follow prev_log_index. When the backlog for a lagging peer
+        // was capped, the new batch does not follow it; it is sent in a later round.
+        let contiguous = entries
+            .iter()
+            .enumerate()
+            .take_while(|(i, e)| e.index == prev_log_index + 1 + *i as u64)
+            .count();
+        entries.truncate(contiguous);
 
         debug!(
             "[Leader {} -> Follower {}] Replicating {} entries",
